@@ -28,7 +28,7 @@ type scriptedCerts struct {
 	issued   map[string]*tls.Certificate
 }
 
-func (s *scriptedCerts) Initialize(context.Context) error { return nil }
+func (s *scriptedCerts) Initialize(context.Context) error   { return nil }
 func (s *scriptedCerts) OnHandshake(cipher.OnHandshakeFunc) {}
 func (s *scriptedCerts) GetCertificate(chi *tls.ClientHelloInfo) (*tls.Certificate, error) {
 	return s.GetCertificateWithContext(context.Background(), chi)
